@@ -503,10 +503,29 @@ func occRequest(ps *propSink, z *zoneState, sa, sb string) string {
 		}
 		return showOcc(r), r
 	}
+	// what the operands denote is fixed BEFORE anything is intersected: an operation that rewrites an operand's
+	// storage must not thereby change what its own result is compared with
+	copyIvs := func(l interval.IntervalList) interval.IntervalList {
+		c := make(interval.IntervalList, len(l))
+		for i, iv := range l {
+			v := *iv
+			c[i] = &v
+		}
+		return c
+	}
+	la, lb := copyIvs(a.GetEpochIntervalList()), copyIvs(b.GetEpochIntervalList())
+	showA, showB := showOcc(a), showOcc(b)
 	ab, rab := one(a, b)
 	ba, rba := one(b, a)
+	// the operands still denote the sets they were built as (else a later intersection with one of them is not the
+	// intersection of that set)
+	if now := showOcc(a); now != showA {
+		ps.add("C12", "%s after A∩B and B∩A operand A reads %s: an intersection changed its operand, so the next intersection with A is not with the set A was built as", tag, now)
+	}
+	if now := showOcc(b); now != showB {
+		ps.add("C12", "%s after A∩B and B∩A operand B reads %s: an intersection changed its operand, so the next intersection with B is not with the set B was built as", tag, now)
+	}
 	// the set of instants common to both, on the observation lattice, through the interval forms
-	la, lb := a.GetEpochIntervalList(), b.GetEpochIntervalList()
 	if rab != nil && rba != nil {
 		lab, lba := rab.GetEpochIntervalList(), rba.GetEpochIntervalList()
 		for _, x := range lattice(la, lb, lab, lba) {
